@@ -32,6 +32,8 @@ def M(cmd, obj="", run="", a="", **kw):
     args, kwargs = [], {}
     if cmd in ("create", "monitor", "declare_stream"):
         kwargs["name"] = a or ("primary" if cmd != "monitor" else obj)
+        if kw.get("collect"):
+            kwargs["collect"] = True
     elif cmd == "close_run" and a:
         kwargs["exit_status"] = a
     elif cmd in ("set", "trigger", "stage", "unstage", "kickoff", "complete", "prepare") and a:
@@ -48,6 +50,8 @@ def M(cmd, obj="", run="", a="", **kw):
         args = [{}]
     elif cmd in ("install_suspender", "remove_suspender"):
         args = [a]          # the suspender's name: replaced by the object when the plan is built
+    elif cmd == "collect" and a:
+        kwargs["name"] = a          # collect into a pre-declared stream
     if cmd in ("set", "prepare"):
         args = [kw.get("value", 1)]
     if args:
@@ -58,7 +62,7 @@ def M(cmd, obj="", run="", a="", **kw):
     return m
 
 
-DEVICES = {"amotor": {"type": "AMotor"}, "apdet": {"type": "APaus"}, "det": {"type": "Det", "motors": ["motor"]}, "det2": {"type": "Det"}, "pdet": {"type": "Paus"},
+DEVICES = {"amotor": {"type": "AMotor"}, "apdet": {"type": "APaus"}, "det": {"type": "Det", "motors": ["motor"]}, "det2": {"type": "Det"}, "pdet": {"type": "Paus"}, "npdet": {"type": "Paus", "noreplay": True},
            "motor": {"type": "Motor"}, "motor2": {"type": "Motor"}, "mon1": {"type": "Mon"}, "fly1": {"type": "Flyer"}, "fly2": {"type": "Flyer"}}
 
 _point = [M("create", a="primary"), M("read", "det"), M("save")]
@@ -204,12 +208,24 @@ PROGRAMS = {
     # the plan's clean-up itself fails (after an abort: the run is closed by the engine as failed, with the exception's text)
     "badclean": {"msgs": [M("open_run"), M("checkpoint"), M("sleep"), M("null"), M("null"), M("null")],
                  "kind": "finally", "try": [2, 4], "cleanup": [5, 6], "raise_at": 6},
+    # a pre-declared collect stream, the flyer re-configured between two collects (monitored only: RE.tla does not model declared
+    # collect streams): the second collect's events must reference the stream's new descriptor
+    "fly_decl": {"msgs": [M("open_run"), M("checkpoint"), M("declare_stream", "fly1", a="fly1_stream", collect=True),
+                          M("kickoff", "fly1", a="g1"), M("wait", a="g1"), M("collect", "fly1", a="fly1_stream"), M("checkpoint"),
+                          M("configure", "fly1"), M("kickoff", "fly1", a="g1"), M("wait", a="g1"), M("collect", "fly1", a="fly1_stream"),
+                          M("null"), M("close_run")]},
+    # a detector whose pause() raises NoReplayAllowed: the engine forgets its rewind cache at the pause / suspension, nothing is
+    # replayed afterwards -- in particular an open bundle goes on (create ... read ... <pause> ... read ... save)
+    "npaus": {"msgs": [M("open_run"), M("checkpoint"), M("trigger", "npdet", a="g1"), M("wait", a="g1"), M("create", a="primary"), M("read", "npdet"),
+                       M("read", "det"), M("null"), M("save"), M("checkpoint"), M("create", a="primary"), M("read", "npdet"), M("read", "det"), M("save"),
+                       M("close_run")]},
     "cfginb": {"msgs": [M("open_run"), M("checkpoint"), M("create", a="primary"), M("read", "det"), M("configure", "det"), M("save"), M("close_run")]},
 }
 ASYNC_PLANS = {"amove", "aopen", "aselfpause_nores"}      # devices whose stop()/pause()/resume() are coroutines that really suspend
 MULTI_RUN_PLANS = {"multi", "multimon", "dupopen", "multi_close", "fly_multi"}
-FLY_PLANS = {"fly", "fly_prep", "fly_left", "fly_fin", "fly_twice", "fly_multi"}
-NOT_CONFORMANCE = {"dropper"}        # use commands RE.tla does not model (yet): monitored only
+FLY_PLANS = {"fly_decl", "fly", "fly_prep", "fly_left", "fly_fin", "fly_twice", "fly_multi"}
+NOT_CONFORMANCE = {"dropper", "fly_decl"}
+NOREPLAY_PLANS = {"npaus"}        # use a device whose pause() raises NoReplayAllowed        # use commands RE.tla does not model (yet): monitored only
 
 BUILTINS = {
     "count": {"builtin": "count", "args": {"dets": ["det"], "num": 2}},
@@ -256,6 +272,8 @@ def base_scenario(plan_name, record_intr=True, faults=None, delay=None):
     if delay:
         for d, v in delay.items():
             devs[d]["delay"] = v
+    if plan_name == "fly_decl":
+        devs["fly1"]["flat"] = True
     return {"id": plan_name, "plan_name": plan_name, "plan": prog_plan(plan_name), "devices": devs, "inject": [],
             "options": {"record_interruptions": record_intr}, "decisions": []}
 
@@ -376,10 +394,12 @@ PROJECTIONS = {
 TRACE_CFG_CONSTS = {
     "RunKeys": {"", "k1", "k2"},
     "Streams": {"primary", "baseline", "interruptions", "mon1", "fly1_stream", "fly2_stream"},
-    "Dets": {"det", "det2", "pdet", "apdet"}, "Motors": {"motor", "motor2", "amotor"}, "Mons": {"mon1"}, "Pausables": {"pdet", "apdet"}, "Flyers": {"fly1", "fly2"},
+    "Dets": {"det", "det2", "pdet", "apdet", "npdet"}, "Motors": {"motor", "motor2", "amotor"}, "Mons": {"mon1"}, "Pausables": {"pdet", "apdet", "npdet"}, "Flyers": {"fly1", "fly2"},
+    "NoReplayDevs": {"npdet"},
     "FlyStream": "<- FlyStreamDef", "FlyN": "<- FlyNDef",
-    "AsyncDevs": {"amotor", "apdet"}, "Suspenders": "<- XSus", "SigOf": "<- SigOfDef", "SusFuts": "<- SusFutsDef",
-    "ReadVal": "<- ReadValDef", "DataKeys": "<- DataKeysDef", "FutNames": {"f1", "f2", "s1a", "s1b", "s1c", "s1d", "s2a", "s2b", "s2c", "s2d"},
+    "AsyncDevs": {"amotor", "apdet"}, "Suspenders": "<- XSus", "SigOf": "<- SigOfDef", "SusFuts": "<- SusFutsDef", "SusBand": {"s3"},
+    "ReadVal": "<- ReadValDef", "DataKeys": "<- DataKeysDef",
+    "FutNames": {"f1", "f2", "s1a", "s1b", "s1c", "s1d", "s2a", "s2b", "s2c", "s2d", "s3a", "s3b", "s3c", "s3d"},
     "StreamOrder": "<- StreamOrderDef", "DevOrder": "<- DevOrderDef", "PlanLib": "<- PlanLibDef",
 }
 
@@ -522,7 +542,7 @@ def corpus_spec(tier):
     sweeps = []
     progs = ["simple", "two", "fin", "move", "mon", "multi", "defer", "norew", "paus", "err", "openonly", "mon_then", "nores_open", "nores_rew", "nores_rew_ckpt", "nores_then_ckpt", "unstage_only", "cfg_late", "multi_close", "amove", "aopen", "aselfpause_nores",
              "selfpause", "selfpause_nores", "selfpause_nores_fin", "selfdefer_nores", "norew_save",
-             "fly", "fly_prep", "fly_left", "fly_fin", "fly_twice", "fly_multi", "declare", "declare_mix", "badclean"]
+             "fly", "fly_prep", "fly_left", "fly_fin", "fly_twice", "fly_multi", "declare", "declare_mix", "badclean", "npaus"]
     kinds = REQ_KINDS
     if quick:
         sweeps.append(dict(plans=progs, kinds=["pause", "suspend", "abort"], decisions=["resume"], ri=True))
@@ -573,6 +593,15 @@ def build_corpus(tier, only=None):
             sc0["options"]["raising_consumer"] = "doc:" + kind
             sc0["id"] = f"badconsumer:{pn}|doc:{kind}"
             scs.append(sc0)
+    # the plan runs below set_run_key_wrapper(plan, "k1"); its second run uses the falsy key 0: every message must reach the
+    # engine under the key it is meant for (monitored only: the gen events carry the intended key)
+    for pn in ("multi", "multi_close"):
+        b0 = base_scenario(pn)
+        b0["options"]["run_key_wrapper"] = True
+        b0["id"] = f"{pn}|rkwrap"
+        scs.append(b0)
+        for p in range(2, run_one(b0)["points"], 3):
+            scs.append(with_inject(b0, [{"at": p, "kind": "pause"}], ["resume"] * 3, f"pause@{p}"))
     scs.append(base_scenario("badsave_fin"))       # (uninterrupted only: a rewind would replay the rejected bundle)
     scs.append(base_scenario("declare_bad"))
     scs += fault_scenarios(tier)
@@ -584,7 +613,7 @@ def build_corpus(tier, only=None):
     scs += defer_pair_scenarios(tier)
     scs += double_suspension_scenarios(tier)
     scs += two_call_scenarios(tier)
-    for pn, lst in sweep(["collide", "collide3", "emptysave", "ckptinb", "dupopen", "cfg", "cfginb", "cfgdrop", "multimon"], ["pause", "suspend"] if quick_tier(tier) else ["pause", "suspend", "abort", "defer"],
+    for pn, lst in sweep(["collide", "collide3", "emptysave", "ckptinb", "dupopen", "cfg", "cfginb", "cfgdrop", "multimon", "fly_decl"], ["pause", "suspend"] if quick_tier(tier) else ["pause", "suspend", "abort", "defer"],
                          ["resume"], record_intr=True):
         if isinstance(lst, dict):
             raise RuntimeError(f"baseline of {pn} failed: {lst['error']}")
@@ -614,6 +643,7 @@ def build_corpus(tier, only=None):
         out.append({"id": r["id"], "events": exp + r["events"], "outcomes": r["outcomes"], "final": r["final"],
                     # (device behaviours RE.tla does not model: a signal that calls back at subscribe time, a failing clear_sub)
                     "conf": r["id"].split("|")[0] not in NOT_CONFORMANCE and not r["id"].startswith("mon|notify") and "clear_sub:raise" not in r["id"]
+                            and "|consumer-updates-on-" not in r["id"] and "|rkwrap" not in r["id"]
                             and not r["id"].startswith("badconsumer:")})
     return {"traces": out, "wall": time.time() - t0}
 
@@ -707,6 +737,15 @@ def monitor_scenarios(tier):
         sc = base_scenario(prog, faults={"mon1": {"clear_sub": "raise"}})
         sc["id"] = f"{prog}|fault:mon1.clear_sub:raise"
         out.append(sc)
+    # a document consumer that makes the monitored signal update while it is handed the RunStop (a callback closing a shutter at
+    # the end of a run): the run is over -- no monitor event may follow its RunStop (monitored only: the update happens inside
+    # close_run, not at a parking place of the run task)
+    for prog in ("mon", "monleft"):
+        for on in ("stop", "start"):
+            sc = base_scenario(prog)
+            sc["options"]["consumer_updates"] = [on, "mon1"]
+            sc["id"] = f"{prog}|consumer-updates-on-{on}"
+            out.append(sc)
     # a signal that notifies on subscribe + a document consumer that rejects monitor events (the run fails inside `monitor`)
     sc = base_scenario("mon")
     sc["devices"]["mon1"]["notify"] = True
@@ -833,6 +872,26 @@ def suspender_scenarios(tier):
             out.append(mk(plan, f"trip2@{p}", {"sig1": 0, "sig2": 0}, [["sus_install", "s1", 0], ["sus_install", "s2", 0]],
                           [{"at": p, "kind": "sig_put", "arg": "sig1", "value": 1}, {"at": p, "kind": "sig_put", "arg": "sig2", "value": 1},
                            {"at": p + 2, "kind": "sig_put", "arg": "sig1", "value": 0}, {"at": p + 5, "kind": "sig_put", "arg": "sig2", "value": 0}]))
+    # D. a suspender with a dead band (SuspendFloor(sig3, 0.5, resume_thresh=1.5): trips below 0.5, releases above 1.5): a value
+    #    inside the band (abstract value 2) neither trips nor releases it -- tripped before the plan starts / during the plan
+    band = {"s3": {"signal": "sig3", "type": "SuspendFloor", "args": [0.5], "kwargs": {"resume_thresh": 1.5}}}
+    vmaps = {"sig3": {0: 2.0, 1: 0.0, 2: 1.0}}
+
+    def mk3(plan, tag, before, inj):
+        sc = base_scenario(plan)
+        sc.update({"id": f"sus:{plan}|band:{tag}", "signals": {"sig3": 0}, "vmaps": vmaps, "suspenders": band, "before": before, "inject": inj,
+                   "decisions": ["resume"] * 3, "timeout": 6})
+        return sc
+    for plan in (("simple",) if quick else ("simple", "move")):
+        n = run_one(base_scenario(plan))["points"]
+        out.append(mk3(plan, "pre-tripped,band,put0@blocked", [["sus_install", "s3", 0], ["sig_put", "sig3", 1], ["sig_put", "sig3", 2]],
+                       [{"at": "blocked", "kind": "sig_put", "arg": "sig3", "value": 0}]))
+        out.append(mk3(plan, "band,installed,put0@2", [["sig_put", "sig3", 2], ["sus_install", "s3", 0]],
+                       [{"at": 2, "kind": "sig_put", "arg": "sig3", "value": 0}]))
+        for p in range(2, n, 2 if quick else 1):
+            out.append(mk3(plan, f"trip@{p},band@{p + 2},put0@blocked", [["sus_install", "s3", 0]],
+                           [{"at": p, "kind": "sig_put", "arg": "sig3", "value": 1}, {"at": p + 2, "kind": "sig_put", "arg": "sig3", "value": 2},
+                            {"at": "blocked", "kind": "sig_put", "arg": "sig3", "value": 0}]))
     return out
 
 
@@ -1174,7 +1233,7 @@ def corruptions(ev):
 MC_BASE = {
     "RunKeys": {"", "k1", "k2"}, "Streams": {"primary", "baseline", "interruptions", "mon1"},
     "Dets": {"det", "det2", "pdet", "apdet"}, "Motors": {"motor", "amotor"}, "Mons": {"mon1"}, "Pausables": {"pdet", "apdet"}, "Flyers": set(),
-    "AsyncDevs": set(), "FlyStream": "<- FlyStreamDef", "FlyN": "<- FlyNDef",
+    "AsyncDevs": set(), "FlyStream": "<- FlyStreamDef", "FlyN": "<- FlyNDef", "NoReplayDevs": set(),
     "ReadVal": "<- ReadValDef", "DataKeys": "<- DataKeysDef", "FutNames": {"f1", "f2"},
     "StreamOrder": "<- StreamOrderDef", "DevOrder": "<- DevOrderDef", "Prog": "<- ProgDef",
     "SuspPre": "<- SuspPreDef", "SuspPost": "<- SuspPostDef",
@@ -1217,7 +1276,7 @@ SuspPostDef == <<{", ".join(tla_msg(m) for m in post)}>>
     consts.update({"MaxReq": max_req, "ReqKinds": set(req_kinds), "MaxFaults": max_faults, "FaultKinds": set(fault_kinds),
                    "Decisions": set(decisions), "MaxCalls": max_calls, "MaxUpdates": max_updates, "RecordIntr": record_intr,
                    "AsyncDevs": set(async_devs), "Suspenders": "<- XSus", "SigOf": "<- SigOfDef", "SusFuts": "<- SusFutsDef",
-                   "MaxSusOps": max_sus_ops, "Flyers": set(flyers),
+                   "MaxSusOps": max_sus_ops, "Flyers": set(flyers), "SusBand": {x for x in suspenders if x == "s3"},
                    "Streams": MC_BASE["Streams"] | {f + "_stream" for f in flyers},
                    "FutNames": {"f1", "f2"} | {x + g for x in suspenders for g in "abc"}})
     cfg = write_cfg(sd / f"{name}.cfg", consts, spec="MCSpec", action_constraints=["MCReport"])
@@ -1295,7 +1354,7 @@ def sig_suffix(trace):
     """what kind of execution a signature comes from, where that decides which await points exist / which history it is"""
     trace_id = trace["id"]
     pn = trace_id.split("|")[0]
-    s = "~async" if pn in ASYNC_PLANS else "~flyer" if (pn in FLY_PLANS or re.fullmatch(r"rf\d+", pn)) else ""
+    s = "~async" if pn in ASYNC_PLANS else "~flyer" if (pn in FLY_PLANS or re.fullmatch(r"rf\d+", pn)) else "~noreplay" if pn in NOREPLAY_PLANS else ""
     if s == "~flyer":
         # did the PLAN close a run while a flyer that had been kicked off was not collected?  (the engine's backstop collection
         # only sees runs that are still open when the engine exits)
